@@ -425,19 +425,14 @@ def applyDefaults : List (String × PropT) → List (String × V) → Out (List 
     | some none => .panic
     | some (some d) => applyDefaults rest (m ++ [(id, d)])
 
-/-- every property that is set is unserialized by its type (`convertData`, third loop) -/
-def unserProps (rec : Rec) (env : Env) : List (String × PropT) → List (String × V) → Out (List (String × V))
-  | [], acc => .ok acc
-  | (id, p) :: rest, acc =>
-    match lookupS id acc with
-    | none => unserProps rec env rest acc
-    | some d =>
-      if p.disabled then .cerrAt [id] else
-      match (rec .U env p.ty d).addSeg id with
-      | .ok d' => unserProps rec env rest (setKey id d' acc)
-      | .err e => .err e
-      | .panic => .panic
-      | .fuel => .fuel
+/-- Unserialize of one present property (`convertData`, third loop). The Go code visits the
+    declared properties in map order and unserializes those that are set; since every key of the
+    (defaulted) map is a declared property, visiting the entries of the map is the same set of
+    visits - only the order differs, which Go leaves unspecified anyway. -/
+def objEntryU (rec : Rec) (env : Env) (props : List (String × PropT)) (k : String) (d : V) : Out V :=
+  match lookupS k props with
+  | none => .cerr
+  | some p => if p.disabled then .cerrAt [k] else (rec .U env p.ty d).addSeg k
 
 /-- `ObjectSchema.Unserialize` up to the interdependency check: the property map -/
 def objRaw (rec : Rec) (env : Env) (props : List (String × PropT)) (v : V) : Out (List (String × V)) :=
@@ -453,7 +448,7 @@ def objRaw (rec : Rec) (env : Env) (props : List (String × PropT)) (v : V) : Ou
     | none => .cerr
     | some skvs =>
       if skvs.any (fun kv => !(hasKey kv.1 props)) then .cerr else
-      (applyDefaults props skvs).bind fun m => unserProps rec env props m
+      (applyDefaults props skvs).bind fun m => forSV (objEntryU rec env props) m
 
 /-- `validateMapTypesCompatibility` -/
 def objCompatMap (rec : Rec) (env : Env) (props : List (String × PropT)) (m : List (String × V)) : Out V :=
